@@ -336,6 +336,121 @@ pub fn run_wait_scenario(sc: &WaitScenario) -> bool {
     })
 }
 
+/// a real Sender whose peer takes at most `max_message_size` octets per transfer: every delivery is cut
+/// into several transfers by the link.  The scripted receiver grants ONE credit at a time, the next only
+/// when a delivery is complete, and finally asks for an echo.  Returns (results of the sends, deliveries
+/// seen, delivery-count advance the sender reports, transfers seen).
+pub fn run_split_credit(max_message_size: u64, sizes: &[usize]) -> Result<(Vec<String>, u32, Option<u32>, usize), String> {
+    use crate::peer::*;
+    use fe2o3_amqp::{Connection, Sender, Session};
+    use fe2o3_amqp_types::definitions::{Handle, ReceiverSettleMode, Role};
+    use fe2o3_amqp_types::messaging::{Accepted, DeliveryState, Message};
+    use fe2o3_amqp_types::performatives::{Attach, Disposition, Flow, Performative};
+    use serde_amqp::primitives::Binary;
+    let rt = paused_runtime();
+    let sizes = sizes.to_vec();
+    rt.block_on(async move {
+        let (cio, pio) = tokio::io::duplex(1 << 20);
+        let mut peer = Peer::new(pio);
+        let cs = sizes.clone();
+        let client = tokio::spawn(async move {
+            let mut conn = Connection::builder().container_id("c08-split").open_with_stream(cio).await.map_err(|e| format!("open: {:?}", e))?;
+            let mut session = Session::builder().begin(&mut conn).await.map_err(|e| format!("begin: {:?}", e))?;
+            let mut sender = Sender::builder().name("split").target("q").attach(&mut session).await.map_err(|e| format!("attach: {:?}", e))?;
+            let mut results = vec![];
+            for (k, len) in cs.iter().enumerate() {
+                let msg = Message::from(Binary::from(vec![k as u8; *len]));
+                results.push(match tokio::time::timeout(Duration::from_secs(5), sender.send(msg)).await {
+                    Err(_) => "pending".to_string(),
+                    Ok(Ok(_)) => "ok".to_string(),
+                    Ok(Err(e)) => format!("error:{:?}", e).replace(' ', "_"),
+                });
+            }
+            // keep the link up for the echo
+            tokio::time::sleep(Duration::from_secs(2)).await;
+            let _ = tokio::time::timeout(Duration::from_secs(5), sender.close()).await;
+            let _ = tokio::time::timeout(Duration::from_secs(5), session.end()).await;
+            let _ = tokio::time::timeout(Duration::from_secs(5), conn.close()).await;
+            Ok::<_, String>(results)
+        });
+        let e = |x: PeerError| format!("{:?}", x);
+        peer.accept_open(&PeerOpen::default()).await.map_err(e)?;
+        peer.accept_begin(0, 0, 2048, 2048).await.map_err(e)?;
+        let a = match peer.recv_frame().await.map_err(e)? {
+            (_, Performative::Attach(a), _) => a,
+            _ => return Err("expected attach".into()),
+        };
+        let idc = a.initial_delivery_count.unwrap_or(0);
+        let ours = Attach {
+            name: a.name.clone(),
+            handle: Handle(4),
+            role: Role::Receiver,
+            snd_settle_mode: a.snd_settle_mode.clone(),
+            rcv_settle_mode: ReceiverSettleMode::First,
+            source: a.source.clone(),
+            target: a.target.clone(),
+            unsettled: None,
+            incomplete_unsettled: false,
+            initial_delivery_count: None,
+            max_message_size: Some(max_message_size),
+            offered_capabilities: None,
+            desired_capabilities: None,
+            properties: None,
+        };
+        peer.send(0, Performative::Attach(ours), &[]).await.map_err(e)?;
+        let mut transfers = 0u32;
+        let mut deliveries = 0u32;
+        let grant = |dc: u32, nii: u32, credit: u32, echo: bool| Flow { next_incoming_id: Some(nii), incoming_window: 2048, next_outgoing_id: 0, outgoing_window: 2048, handle: Some(Handle(4)), delivery_count: Some(dc), link_credit: Some(credit), available: None, drain: false, echo, properties: None };
+        peer.send(0, Performative::Flow(grant(idc, 0, 1, false)), &[]).await.map_err(e)?;
+        let mut current: Option<u32> = None;
+        let mut reported: Option<u32> = None;
+        let mut asked = false;
+        peer.recv_timeout = Duration::from_secs(6);
+        loop {
+            match peer.recv_frame().await {
+                Ok((_, Performative::Transfer(t), _)) => {
+                    transfers += 1;
+                    if current.is_none() {
+                        current = Some(t.delivery_id.unwrap_or(u32::MAX));
+                    }
+                    if !t.more {
+                        let id = current.take().unwrap();
+                        deliveries += 1;
+                        let d = Disposition { role: Role::Receiver, first: id, last: None, settled: true, state: Some(DeliveryState::Accepted(Accepted {})), batchable: false };
+                        peer.send(0, Performative::Disposition(d), &[]).await.map_err(e)?;
+                        if (deliveries as usize) < sizes.len() {
+                            // exactly one more
+                            peer.send(0, Performative::Flow(grant(idc.wrapping_add(deliveries), transfers, 1, false)), &[]).await.map_err(e)?;
+                        } else {
+                            asked = true;
+                            peer.send(0, Performative::Flow(grant(idc.wrapping_add(deliveries), transfers, 0, true)), &[]).await.map_err(e)?;
+                        }
+                    }
+                }
+                Ok((_, Performative::Flow(f), _)) => {
+                    if asked && f.handle.is_some() {
+                        reported = f.delivery_count.map(|d| d.wrapping_sub(idc));
+                    }
+                }
+                Ok((_, Performative::Detach(d), _)) => {
+                    let _ = peer.send(0, Performative::Detach(fe2o3_amqp_types::performatives::Detach { handle: Handle(4), closed: d.closed, error: None }), &[]).await;
+                }
+                Ok((_, Performative::End(_), _)) => {
+                    let _ = peer.send(0, Performative::End(fe2o3_amqp_types::performatives::End { error: None }), &[]).await;
+                }
+                Ok((_, Performative::Close(_), _)) => {
+                    let _ = peer.close_politely().await;
+                    break;
+                }
+                Ok(_) => {}
+                Err(_) => break,
+            }
+        }
+        let results = tokio::time::timeout(Duration::from_secs(60), client).await.map_err(|_| "the client did not finish".to_string())?.map_err(|e| format!("{:?}", e))??;
+        Ok((results, deliveries, reported, transfers as usize))
+    })
+}
+
 pub fn main(opts: &Opts) {
     let mut report = Report::new(
         "C08",
@@ -346,6 +461,15 @@ pub fn main(opts: &Opts) {
     );
     if let Some(path) = &opts.replay {
         let j: J = serde_json::from_str(&std::fs::read_to_string(path).expect("read replay")).expect("json");
+        if let Some(sc) = j.get("split_credit") {
+            let m = sc.get("max_message_size").and_then(|x| x.as_u64()).unwrap_or(64);
+            let sizes: Vec<usize> = sc.get("sizes").and_then(|x| x.as_array()).map(|a| a.iter().filter_map(|x| x.as_u64()).map(|x| x as usize).collect()).unwrap_or_default();
+            let r = run_split_credit(m, &sizes);
+            println!("{:?}", r);
+            let ok = matches!(&r, Ok((res, d, rep, _)) if res.iter().all(|x| x == "ok") && *d as usize == sizes.len() && *rep == Some(sizes.len() as u32));
+            println!("REPLAY: property {} on this scenario", if ok { "holds" } else { "violated" });
+            std::process::exit(if ok { 0 } else { 1 });
+        }
         if let Some(name) = j.get("scenario").and_then(|x| x.as_str()) {
             let sc = SCENARIOS.iter().find(|s| s.name == name).expect("scenario");
             let done = run_wait_scenario(sc);
@@ -440,6 +564,25 @@ pub fn main(opts: &Opts) {
         all_lines.extend(case.lines());
         impl_lines.extend(render_impl(&outs));
         cases.push(case);
+    }
+
+    // deliveries cut into several transfers by the link: one credit each
+    for &m in &[64u64, 100, 300] {
+        let sizes = [1usize, m as usize + 1, 3 * m as usize, 10 * m as usize];
+        report.evaluations += 1;
+        report.count("split_delivery_cases");
+        report.nontrivial_case(fnv(&format!("split-credit-{}", m)));
+        let replay = json!({"property": "C08", "module": "credit", "split_credit": {"max_message_size": m, "sizes": sizes}});
+        match run_split_credit(m, &sizes) {
+            Ok((results, deliveries, reported, transfers)) => {
+                if results.iter().any(|r| r != "ok") || deliveries as usize != sizes.len() {
+                    report.finding(Finding { kind: "violation", key: "split-delivery-waits-despite-credit".into(), description: format!("peer max-message-size {}: messages of {:?} octets, one credit granted per message: sends {:?}, {} deliveries ({} transfers) arrived", m, sizes, results, deliveries, transfers), replay });
+                } else if reported != Some(sizes.len() as u32) {
+                    report.finding(Finding { kind: "violation", key: "split-delivery-consumed-other-than-one-credit".into(), description: format!("peer max-message-size {}: after {} deliveries in {} transfers the sender reports its delivery-count advanced by {:?}", m, deliveries, transfers, reported), replay });
+                }
+            }
+            Err(e) => report.finding(Finding { kind: "violation", key: "split-credit-scenario-failed".into(), description: e, replay }),
+        }
     }
 
     // wait protocol scenarios: implementation
